@@ -12,7 +12,7 @@ PROPS = {
                       "inputs; Program.match is proved to account for every item of the input on every normal exit (after the repair of its fallback); SequenceBase.match "
                       "is proved to build one node per entry in order; the lexical content of the printed text is compared with the source on a program "
                       "corpus (bounded); the generic rule bases (match and tostr) and, among the rule-specific methods of Fortran2003.py, 65 tostr "
-                      "and 19 match(string) methods are proved to hand on / print every part of their text (the remaining rule-specific methods are not under contract)",
+                      "and 22 match(string) methods are proved to hand on / print every part of their text (the remaining rule-specific methods are not under contract)",
                 trusted=TRUSTED,
                 explanation="[P] tokenisers, label/name extraction, Program.match item accounting, rule bases, statement-level tostr / match(string) contracts (contracts/small_batch.py); [B] lexical content of printed "
                             "text vs source (bounded_tokens.py), layout independence of the reader items (bounded_layout.py)",
